@@ -23,6 +23,8 @@ void EventLog::ev(const char *kind, int task, int op, uint64_t a, uint64_t b, ui
 	h = mix64(h, (uint64_t)(uint32_t)task << 32 | (uint32_t)op);
 	h = mix64(h, a); h = mix64(h, b); h = mix64(h, c);
 	fp = h;
+	if (kind[0] == 'o' && kind[1] == 'p' && !kind[2]) sem += mix64(mix64((uint64_t)(uint32_t)op, a), mix64(b, c));
+	else if (kind[0] == 'v' && kind[1] == 'i') sem += mix64(0x7101, mix64(a, b));
 	++count;
 	if (trace) {
 		char buf[256];
@@ -104,7 +106,7 @@ int sched_current_task() { return g_in_phase ? g_slot[t_slot].task_id : 0; }
 bool sched_in_phase() { return g_in_phase != 0; }
 
 // decide which slot runs next; `finishing` = the current slot cannot continue
-static int decide(int site, bool finishing) {
+static int decide(int site, bool finishing, bool force = false) {
 	int runnable[MAXT], nr = 0;
 	for (int i = 1; i <= g_nslots; ++i)
 		if (!g_slot[i].finished && !(finishing && i == g_cur)) runnable[nr++] = i;
@@ -122,10 +124,16 @@ static int decide(int site, bool finishing) {
 		}
 		if (next < 0) next = runnable[0];
 	} else {
-		bool sw = finishing;
+		bool sw = finishing || force;
 		if (!sw) {
-			if (site == g_cfg.park_site && g_cfg.park_site != 0) sw = g_srng.chance(g_cfg.park_num, g_cfg.park_den);
-			else sw = g_cfg.p_num && g_srng.chance(g_cfg.p_num, g_cfg.p_den);
+			if (site == g_cfg.park_site && g_cfg.park_site != 0) sw = g_srng.chance(g_cfg.park_num, site_is_dense(site) ? g_cfg.park_den * 16 : g_cfg.park_den);
+			else {
+				// scheduling points that are passed thousands of times per call (per interpreter iteration, per dataset
+				// item, per Argon2 block) switch 16 times less often each, or a run would consist of hand-offs
+				uint32_t den = g_cfg.p_den;
+				if (site_is_dense(site)) den = den > (1u << 27) ? den : den * 16;
+				sw = g_cfg.p_num && g_srng.chance(g_cfg.p_num, den);
+			}
 		}
 		if (sw) {
 			// candidates other than the current slot
@@ -162,6 +170,20 @@ void sched_yield_point(int site) {
 	if (g_switch_hook) g_switch_hook();
 	grant(next);
 	park(me);
+}
+
+bool sched_yield_point_forced(int site) {
+	++g_stats.yields_total;
+	if (!g_in_phase || t_lock_depth > 0) return false;
+	int me = t_slot;
+	if (me == 0 || me != g_cur) return false;
+	int next = decide(site, false, true);
+	if (next == me || next == 0) return false;
+	g_cur = next;
+	if (g_switch_hook) g_switch_hook();
+	grant(next);
+	park(me);
+	return true;
 }
 
 static void *thread_main(void *arg) {
